@@ -7,7 +7,7 @@
 #   tools/mutharness.sh clean           remove everything again
 set -e
 HERE="$(cd "$(dirname "$0")/.." && pwd)"
-MH=/tmp/mh
+MH="${MH:-/tmp/mh}"
 copy_engines() {
   mkdir -p $MH/verif
   rsync -a --delete --exclude target --exclude replays --exclude evidence "$HERE/core" "$HERE/sim-io" "$HERE/sim-par" "$HERE/tools" "$HERE/check" "$HERE/known_findings.json" $MH/verif/
